@@ -73,6 +73,54 @@ var envFuncs = map[string]bool{"os.Getenv": true, "os.LookupEnv": true, "os.Envi
 	"os.Executable": true, "time.Now": true, "time.Since": true, "os.ExpandEnv": true, "os.UserCacheDir": true, "os.UserConfigDir": true,
 	"path/filepath.Abs": true, "os.Readlink": true, "path/filepath.EvalSymlinks": true, "time.Until": true}
 
+// printsAddress: would fmt's %v of a value of this static type show a memory address?
+// Pointers (except a top-level pointer to a struct/array/slice/map, which is printed as
+// &{…} — but pointers nested inside are addresses), channels, funcs, unsafe.Pointer.
+// Values with an Error / String / Format method are printed through it; the dynamic
+// content of interface values is not known statically (not reported).
+func printsAddress(t types.Type) bool { return printsAddr(t, true, map[types.Type]bool{}) }
+
+func printsAddr(t types.Type, top bool, seen map[types.Type]bool) bool {
+	if seen[t] {
+		return false
+	}
+	seen[t] = true
+	for _, m := range []string{"Error", "String", "Format", "GoString"} {
+		if obj, _, _ := types.LookupFieldOrMethod(t, true, nil, m); obj != nil {
+			if _, isFunc := obj.(*types.Func); isFunc {
+				return false
+			}
+		}
+	}
+	switch u := t.Underlying().(type) {
+	case *types.Pointer:
+		if top {
+			switch u.Elem().Underlying().(type) {
+			case *types.Struct, *types.Array, *types.Slice, *types.Map:
+				return printsAddr(u.Elem(), false, seen)
+			}
+		}
+		return true
+	case *types.Chan, *types.Signature:
+		return true
+	case *types.Basic:
+		return u.Kind() == types.UnsafePointer
+	case *types.Struct:
+		for i := 0; i < u.NumFields(); i++ {
+			if printsAddr(u.Field(i).Type(), false, seen) {
+				return true
+			}
+		}
+	case *types.Array:
+		return printsAddr(u.Elem(), false, seen)
+	case *types.Slice:
+		return printsAddr(u.Elem(), false, seen)
+	case *types.Map:
+		return printsAddr(u.Key(), false, seen) || printsAddr(u.Elem(), false, seen)
+	}
+	return false
+}
+
 func normText(fset *token.FileSet, n ast.Node) string {
 	var b bytes.Buffer
 	printer.Fprint(&b, token.NewFileSet(), n) // fresh fileset: no positions, comments dropped
@@ -301,6 +349,22 @@ func fileSites(fset *token.FileSet, f *ast.File, rel string, info *types.Info) (
 			case *ast.SelectStmt:
 				add("select", "-", n, true)
 			case *ast.CallExpr:
+				// any call that passes values through a `...interface{}` parameter (fmt.*printf, the
+				// compiler's own buffer.printf, errors built with Errorf): would %v show an address?
+				if tv, ok := info.Types[n.Fun]; ok && tv.Type != nil && !n.Ellipsis.IsValid() && !strings.Contains(strings.ToLower(normText(fset, n.Fun)), "scan") {
+					if sig, ok := tv.Type.Underlying().(*types.Signature); ok && sig.Variadic() {
+						np := sig.Params().Len()
+						if sl, ok := sig.Params().At(np - 1).Type().(*types.Slice); ok {
+							if it, ok := sl.Elem().Underlying().(*types.Interface); ok && it.Empty() {
+								for i := np - 1; i < len(n.Args); i++ {
+									if at, ok := info.Types[n.Args[i]]; ok && at.Type != nil && printsAddress(at.Type) {
+										add("fmtptr", normText(fset, n.Args[i])+":"+strings.ReplaceAll(at.Type.String(), " ", ""), n, true)
+									}
+								}
+							}
+						}
+					}
+				}
 				if se, ok := n.Fun.(*ast.SelectorExpr); ok {
 					isPkgCall := false
 					if id, ok := se.X.(*ast.Ident); ok {
